@@ -2,7 +2,8 @@
    Lib/Cli.v is the hand-written model of refurb/settings.py's parsers (tied by the
    correspondence check on every run); merge is regenerated from the source. *)
 From Lib Require Import Base Select Cli.
-From P Require Import GenSelect C14Total C14Equiv C14Position.
+From Lib Require Import CliTotal CliEquiv CliPosition.
+From P Require Import GenSelect.
 Open Scope list_scope.
 
 (* any argument vector / any TOML document, ill-typed ones included: a Settings value
